@@ -62,6 +62,9 @@ def run(chk):
     chk.add(crash_points=len(items))
     eg.standard_run(chk, "C13", None, {"case"}, items=items, key_of=key_of, conform=False,
                     nontrivial=lambda tr: not tr[0]["prefix_ends_run"])
+    # the same executions (crash + restart on one database = one trace), line by line against ServerStack.tla
+    from harness.checks import _server as _sv
+    _sv.conform_server(chk)
     # design level: the persistence/replay model
     res = tlc.run(SPECS / "server/MC_Persistence.tla", SPECS / "server/MC_Persistence.cfg", workdir=chk.work, deadlock=False)
     chk.record_tlc("Persistence/design", res)
